@@ -98,8 +98,36 @@ def check_all(ctx, F, tag):
     if m_r is None or m_f is None or K is None:
         ctx.missing('C17.O4', 'consts MOD / NORMALIZE_INTERVAL')
     ctx.check(m_r == 65521 and m_f == 65521, 'C17.O4', 'MOD' + tag, 'both moduli are 65521', 'the modulus is not 65521 in both types (%s / %s): digests differ from the definition' % (m_r, m_f), 'src/checksum.rs')
+    ctx.attempt(length_field_width, ctx, F, tag)
     eager(ctx, F, tag, m_r)
     lazy(ctx, F, tag, m_f, K)
+
+
+INT_BITS = {'u8': 8, 'i8': 7, 'u16': 16, 'i16': 15, 'u32': 32, 'i32': 31, 'u64': 64, 'i64': 63, 'u128': 128, 'i128': 127, 'usize': 64, 'isize': 63}
+
+
+def length_field_width(ctx, F, tag):
+    """"the reported length is the window length, for every non-empty window up to the maximum block size of 65536": whatever the
+    fields are called, the one `len()` reports must be able to HOLD 65536 (17 bits) - a type-level necessary condition that does
+    not depend on the arithmetic engine reading the methods (a window of exactly the maximum block size stored in a u16 is 65535
+    or 0: len() is wrong and roll removes one `old` too few from b)"""
+    for T in (RC, FC):
+        b = F.body(T + '::len')
+        adt = F.adts.get(T)
+        if b is None or adt is None or not adt.get('variants'):
+            continue
+        os_ = [o for o in flow_of(b).origins(0) if o.kind != 'comb']
+        names = {o.path[0] for o in os_ if o.kind == 'param' and o.key == 1 and o.path}
+        if not os_ or not all(o.kind == 'param' and o.key == 1 and o.path for o in os_) or len(names) != 1:
+            continue        # len() computed in another way: left to the method rules
+        fname = list(names)[0]
+        fty = next((f.get('ty') for f in adt['variants'][0].get('fields', []) if f.get('name') == fname), None)
+        bits = INT_BITS.get(fty)
+        if bits is None:
+            continue
+        ctx.check(bits >= 17, 'C17.O4', '%s:length-field-holds-the-maximum-block%s' % (T.split('::')[-1], tag), 'len() reports field `%s`: %s holds every window length up to %d' % (fname, fty, NMAX),
+                  '%s::len() reports field `%s` of type %s, which cannot hold the window length %d (the maximum block size): the reported length is wrong for a full-size window and every slide '
+                  'removes the outgoing byte %d times instead of %d from the weighted sum' % (T.split('::')[-1], fname, fty, NMAX, (1 << bits) - 1, NMAX), 'src/checksum.rs')
 
 
 # ---------------------------------------------------------------- RollingChecksum (eager mod)
